@@ -6,12 +6,12 @@ open Uft.Mcount
 
 /-- cfg of finding F4: `-F a -L other.c`; `a` (function 0) is not in the location set -/
 def cfgFL : Cfg :=
-  { optIn := true, locIn := true,
+  { optIn := true, locIn := true, f4fixed := false,
     trig := fun f => if f = 0 then { filter := some true } else if f = 2 then { loc := some true } else {} }
 
-/-- F4 witness: on the -pg/fentry path a call of `a` leaves in_count = 1 behind
-    (no frame is pushed, so nothing ever undoes the increment); the cygprof path
-    restores the state. -/
+/-- F4 witness (code before the repair, `f4fixed := false`): on the -pg/fentry
+    path a call of `a` leaves in_count = 1 behind (no frame is pushed, so nothing
+    ever undoes the increment); the cygprof path restores the state. -/
 theorem c05_pg_leak_witness :
     (runCall cfgFL .pg (St.init cfgFL) (.node 0 10 20 .nil)).filt.inCount = 1 ∧
     (runCall cfgFL .cyg (St.init cfgFL) (.node 0 10 20 .nil)).filt.inCount = 0 := by
@@ -64,6 +64,51 @@ theorem c05_forest_restores_initial_cyg (cfg : Cfg) (hf : cfg.fast = false)
     (hfin : ∀ f, (cfg.trig f).finish = false) (cs : Calls) :
     core (runCalls cfg .cyg (St.init cfg) cs) = core (St.init cfg) :=
   restored_calls cfg hf hfin cs (St.init cfg) (Or.inl rfl)
+
+mutual
+theorem restored_call_pg (cfg : Cfg) (hf : cfg.fast = false) (hfix : cfg.f4fixed = true)
+    (hfin : ∀ f, (cfg.trig f).finish = false) :
+    ∀ (c : Call) (s : St), (core s).WF cfg → core (runCall cfg .pg s c) = core s
+  | .node f t0 t1 kids, s, hwf => by
+    simp only [runCall]
+    by_cases hp : (entry cfg .pg s f t0).2 = true
+    · have h1 : core (entry cfg .pg s f t0).1 = entryCore cfg f (core s) :=
+        (core_entry_pg_push cfg hf s f t0 (hfin f) hp).trans (core_entry_cyg cfg hf s f t0 (hfin f))
+      have hwf1 : (core (entry cfg .pg s f t0).1).WF cfg := by rw [h1]; exact entryCore_wf cfg f _ hwf
+      have hk := restored_calls_pg cfg hf hfix hfin kids (entry cfg .pg s f t0).1 hwf1
+      simp only [hp, ↓reduceIte]
+      rw [core_exit cfg hf, hk, h1, exitCore_entryCore cfg f _ hwf]
+    · have hp' : (entry cfg .pg s f t0).2 = false := by simpa using hp
+      have h1 := core_entry_pg_nopush cfg hf hfix s f t0 hp'
+      have hk := restored_calls_pg cfg hf hfix hfin kids (entry cfg .pg s f t0).1 (by rw [h1]; exact hwf)
+      simp only [hp', Bool.false_eq_true, ↓reduceIte]
+      rw [hk, h1]
+theorem restored_calls_pg (cfg : Cfg) (hf : cfg.fast = false) (hfix : cfg.f4fixed = true)
+    (hfin : ∀ f, (cfg.trig f).finish = false) :
+    ∀ (cs : Calls) (s : St), (core s).WF cfg → core (runCalls cfg .pg s cs) = core s
+  | .nil, s, _ => rfl
+  | .cons c rest, s, hwf => by
+    have h1 := restored_call_pg cfg hf hfix hfin c s hwf
+    have h2 := restored_calls_pg cfg hf hfix hfin rest (runCall cfg .pg s c) (by rw [h1]; exact hwf)
+    simp only [runCalls]
+    rw [h2, h1]
+end
+
+/-- C05, state restoration for the -pg / -mfentry / patched-entry hooks (code
+    with the repair of F4): the filter state after any call equals the state
+    before it — for every trigger table, option set and call tree. Together
+    with `c05_state_restored_cyg` this covers every instrumentation method. -/
+theorem c05_state_restored_pg (cfg : Cfg) (hf : cfg.fast = false) (hfix : cfg.f4fixed = true)
+    (hfin : ∀ f, (cfg.trig f).finish = false) (c : Call) (s : St) (hwf : (core s).WF cfg) :
+    core (runCall cfg .pg s c) = core s :=
+  restored_call_pg cfg hf hfix hfin c s hwf
+
+/-- both hook families agree on the filter state after any forest: what the next
+    sibling call sees does not depend on the instrumentation method -/
+theorem c05_method_independent_state (cfg : Cfg) (hf : cfg.fast = false) (hfix : cfg.f4fixed = true)
+    (hfin : ∀ f, (cfg.trig f).finish = false) (cs : Calls) :
+    core (runCalls cfg .pg (St.init cfg) cs) = core (runCalls cfg .cyg (St.init cfg) cs) := by
+  rw [restored_calls_pg cfg hf hfix hfin cs _ (Or.inl rfl), restored_calls cfg hf hfin cs _ (Or.inl rfl)]
 
 /-- non-vacuity: the F4 configuration satisfies the hypotheses (no finish trigger, regular build) -/
 example : cfgFL.fast = false ∧ ∀ f, (cfgFL.trig f).finish = false := by
